@@ -33,6 +33,28 @@ MUTANTS = [
     ("stop_ignores_terminate_failure", "reproc.c", "    if (r < 0) {\n      break;\n    }\n\n    r = reproc_wait(process, actions[i].timeout);", "    r = reproc_wait(process, actions[i].timeout);", "reproc_stop", "C07/reproc_stop.otherwise_error_of_failed_action"),
     ("stop_continues_after_status", "reproc.c", "    if (r != REPROC_ETIMEDOUT) {\n      break;\n    }\n  }\n\n  return r;", "    if (r < 0 && r != REPROC_ETIMEDOUT) {\n      break;\n    }\n  }\n\n  return r;", "reproc_stop", "C01+C07/reproc_stop.status_iff_reaped"),
     ("stop_default_policy_kill", "options.c", "stop.second.action = REPROC_STOP_TERMINATE;", "stop.second.action = REPROC_STOP_KILL;", "reproc_stop", "C07+C15/stop.signal_is_next_planned_step"),
+    ("destroy_skips_stop", "reproc.c", "  if (process->status == STATUS_IN_PROGRESS) {\n    reproc_stop(process, process->stop);\n  }", "", "reproc_destroy", "C15/os.close.only_after_stop_sequence"),
+    ("destroy_leaks_exit_pipe", "reproc.c", "  pipe_destroy(process->pipe.exit);\n\n  pipe_destroy(process->child.out);", "  pipe_destroy(process->child.out);", "reproc_destroy", "C05+C15/reproc_destroy.every_parent_end_closed_once"),
+    ("destroy_stops_with_default_policy", "reproc.c", "    reproc_stop(process, process->stop);", "    reproc_stop(process, (reproc_stop_actions) REPROC_STOP_ACTIONS_NULL);", "reproc_destroy", "C07+C15/stop.wait_is_next_planned_step"),
+    ("start_forgets_stop_policy", "reproc.c", "    process->stop = options.stop;\n", "", "reproc_start_parent", "C15/reproc_start.stop_policy_stored"),
+    ("start_leaks_exit_pipe_on_failure", "reproc.c", "    process->pipe.exit = pipe_destroy(process->pipe.exit);\n    deinit();", "    deinit();", "reproc_start_parent", "C05/reproc_start.failure_leaves_no_descriptor"),
+    ("start_keeps_childs_stdout_end", "reproc.c", "  child.out = redirect_destroy(child.out, options.redirect.out.type);\n  child.err", "  child.err", "reproc_start_parent", "C02+C05/reproc_start.childs_ends_closed_in_parent"),
+    ("start_status_not_set", "reproc.c", "    process->status = STATUS_IN_PROGRESS;", "    process->status = STATUS_NOT_STARTED;", "reproc_start_parent", "C04+C06/reproc_start.success_is_running_child_that_executed"),
+    ("start_deadline_absolute", "reproc.c", "process->deadline = now() + options.deadline;", "process->deadline = options.deadline;", "reproc_start_parent", "C08/reproc_start.deadline_is_now_plus_option"),
+    ("fork_mask_not_restored_in_parent", "process.posix.c", "    int q = signal_mask(SIG_SETMASK, &mask.old, &mask.old);\n    ASSERT_UNUSED(q == 0);\n\n    // Close the error pipe write end", "    int q = 0;\n\n    // Close the error pipe write end", "process_fork_parent", "C12/process_fork.parent_signal_mask_restored"),
+    ("fork_child_keeps_mask", "process.posix.c", "  r = signal_mask(SIG_SETMASK, &mask.new, NULL);\n  if (r < 0) {\n    goto finish;\n  }", "", "process_fork_child", "C12/process_fork.child_clean_signal_state"),
+    ("fork_child_skips_low_fds", "process.posix.c", "for (int i = 0; i <= max_fd; i++)", "for (int i = 3; i <= max_fd; i++)", "process_fork_child", "C11/process_fork.child_keeps_only_excepted_descriptors"),
+    ("fork_child_off_by_one_again", "process.posix.c", "for (int i = 0; i <= max_fd; i++)", "for (int i = 0; i < max_fd; i++)", "process_fork_child", "C11/process_fork.child_keeps_only_excepted_descriptors"),
+    ("start_exit_handle_cloexec", "process.posix.c", "    r = handle_cloexec(options.handle.exit, false);", "    r = handle_cloexec(options.handle.exit, true);", "process_start_child", "C11/exec.exit_handle_inherited"),
+    ("start_chdir_after_exec_order", "process.posix.c", "    if (options.working_directory != NULL) {\n      r = chdir(options.working_directory);", "    if (options.working_directory == NULL) {\n      r = chdir(\".\");", "process_start_child", "C03/exec.working_directory"),
+    ("start_env_not_installed", "process.posix.c", "    environ = env;\n", "", "process_start_child", "C03/exec.environment_is_parent_then_extra"),
+    ("start_env_ignores_behavior", "process.posix.c", "options.env.behavior == REPROC_ENV_EMPTY ? NULL", "options.env.behavior == REPROC_ENV_EXTEND ? NULL", "process_start_child", "C03/exec.environment_is_parent_then_extra"),
+    ("start_program_not_prefixed", "process.posix.c", "options.working_directory && path_is_relative(argv[0])", "options.working_directory && !path_is_relative(argv[0])", "process_start_child", "C03/exec.program_is_argv0_or_cwd_prefixed"),
+    ("start_pid_not_stored", "process.posix.c", "  *process = child;\n  r = 0;", "  r = 0;", "process_start_parent", "C04+C06/process_start.success_is_live_child_that_executed"),
+    ("start_child_failure_not_reaped", "process.posix.c", "    r = waitpid(child, NULL, 0);\n    r = r < 0 ? -errno : -child_errno;\n    goto finish;", "    r = -child_errno;\n    goto finish;", "process_start_parent", "C04+C05+C06/process_start.failure_leaves_no_child_and_no_pid"),
+    ("setup_input_blocking", "reproc.c", "  r = pipe_nonblocking(*pipe, true);\n  if (r < 0) {\n    return r;\n  }\n", "", "setup_input", "C17/os.write.input_nonblocking"),
+    ("setup_input_restarts", "reproc.c", "r = pipe_write(*pipe, data + written, size - written);", "r = pipe_write(*pipe, data, size - written);", "setup_input", "C02/os.write.input_cursor"),
+    ("setup_input_keeps_stdin_open", "reproc.c", "  *pipe = pipe_destroy(*pipe);\n\n  return 0;\n}\n\nstatic int expiry", "  return 0;\n}\n\nstatic int expiry", "setup_input", "C02/setup_input.stdin_closed_after_input"),
     ("read_wrong_stream", "reproc.c", "pipe_type *pipe = stream == REPROC_STREAM_OUT ? &process->pipe.out\n                                                : &process->pipe.err;", "pipe_type *pipe = stream == REPROC_STREAM_OUT ? &process->pipe.err\n                                                : &process->pipe.out;", "reproc_read", "C02/reproc_read.one_read_on_that_stream"),
     ("read_epipe_not_sticky", "reproc.c", "  if (r == REPROC_EPIPE) {\n    *pipe = pipe_destroy(*pipe);\n  }", "  if (r == REPROC_EPIPE) {\n    pipe_destroy(*pipe);\n  }", "reproc_read", "C02/reproc_read.epipe_is_sticky"),
     ("close_not_idempotent", "reproc.c", "      process->pipe.in = pipe_destroy(process->pipe.in);\n      return 0;", "      pipe_destroy(process->pipe.in);\n      return 0;", "reproc_close", "C02+C14/reproc_close.closes_exactly_that_stream"),
@@ -52,7 +74,8 @@ def one(m, keep=False):
             return name, "MUTATION-DOES-NOT-APPLY", ""
         open(p, "w").write(s.replace(old, new, 1))
         env = dict(os.environ, VERIF_REPO=top, VERIF_BUILD_SUFFIX="." + name)
-        r = subprocess.run([os.path.join(VERIF, "verif"), "harness", harness], capture_output=True, text=True, env=env)
+        defs = ["-DVERIF_EXCLUDE_D10", "-DVERIF_EXCLUDE_D11", "-DVERIF_EXCLUDE_D15"]
+        r = subprocess.run([os.path.join(VERIF, "verif"), "harness", harness] + defs, capture_output=True, text=True, env=env)
         refuted = [l.split()[1] for l in r.stdout.splitlines() if l.strip().startswith("FAILURE") and "canary/" not in l and "reach/" not in l]
         if label in refuted:
             return name, "caught", ", ".join(refuted)
